@@ -183,7 +183,7 @@ func FuzzC02Text(f *testing.F) {
 		}
 		c := DiffTextCase{Text: text, Targets: []string{target}}
 		err := guarded(checkC02Text, c, r)
-		if err != nil {
+		if err != nil && !r.Suppress(err) {
 			if _, ok := err.(*rec.Violation); ok {
 				r.WriteFail(c, err)
 			}
